@@ -319,6 +319,11 @@ def fitParamsMtl (contig : Bool) (t : Nat) (eps : α) (C : List (List α)) (Y : 
 def predictMtl (t : Nat) (rows : List (List α)) (W : List (List α)) (b : List α) : List (List α) :=
   rows.map fun row => List.zipWith (fun wc bk => dotS row wc + bk) (colsOf t W) b
 
+/-- the residual matrix `R = Y − XW` (rows of length `t`), built task by task from the single-task
+`residual` and transposed back to rows -/
+def residualMtl (t : Nat) (C : List (List α)) (Y W : List (List α)) : List (List α) :=
+  colsOf Y.length (List.zipWith (fun yk wk => residual C yk wk 0) (colsOf t Y) (colsOf t W))
+
 /-- the multi-task documented objective times `n`:
 `½‖Y − XW − 1bᵀ‖²_F + n·pen·(ρ‖W‖₂,₁ + (1−ρ)/2·‖W‖²_F)`; `C` columns of `X`, `Yc` columns of `Y`,
 `Wc` columns of `W` (one coefficient vector per task), `Wr` its rows (one group per feature) -/
